@@ -486,6 +486,26 @@ class Path(object):
         self.obligations = []  # (name, Cond/z3, node) side obligations met along the path
 
 
+# ---- which attributes of real-class instances were read, and with what kind of value: an attribute that is only ever read with one
+# constant value was never varied by any harness of the run (audit information, written to the evidence)
+ATTR_READS = {}
+
+
+def note_attr_read(cls, name, v):
+    v = _unwrap0(v)
+    if isinstance(v, P):
+        kind = repr(v.const_value()) if v.is_const() else '<symbolic>'
+    elif isinstance(v, (bool, int, float, str)) or v is None:
+        kind = repr(v)
+    elif isinstance(v, (list, tuple)) and len(v) == 0:
+        kind = repr(v)
+    else:
+        kind = '<object>'
+    s_ = ATTR_READS.setdefault('%s.%s' % (cls, name), set())
+    if len(s_) < 6:
+        s_.add(kind)
+
+
 class Interp(object):
     def __init__(self, repo=REPO):
         self.repo = repo
@@ -933,6 +953,13 @@ class Interp(object):
                 if getattr(cur, 'maybe_held', False):
                     new.maybe_held = True
             self.path.log.append(('mutate', cur.oid, s.lineno, bool(getattr(cur, 'maybe_held', False))))
+        elif isinstance(cur, list) and isinstance(s.op, ast.Add) and isinstance(rhs, (list, tuple)):
+            # list.__iadd__ extends the SAME object (visible through every alias: another name, an attribute, a default argument)
+            cur.extend(rhs)
+            new = cur
+        elif isinstance(cur, list) and isinstance(s.op, ast.Mult) and isinstance(_unwrap0(rhs), int) and not isinstance(_unwrap0(rhs), bool):
+            cur[:] = cur * _unwrap0(rhs)
+            new = cur
         else:
             new = self.binop(s.op, cur, rhs, s, fr)
         self.assign(t, new, fr)
@@ -1128,6 +1155,8 @@ class Interp(object):
     def getattr(self, o, name, node=None):
         if isinstance(o, Obj):
             if name in o.attrs:
+                if o.cls is not None:
+                    note_attr_read(o.cls.name, name, o.attrs[name])
                 if self.on_attr_read:
                     self.on_attr_read(o, name)
                 if self.path is not None:
